@@ -166,6 +166,7 @@ type schedRun struct {
 	restoreTime func()
 	steps      int
 	failWhileBlocked bool
+	resumeExempt map[string]bool // C04: first start of a handler that was in flight at the crash (its start was judged before the crash)
 	abortIdle bool
 }
 
@@ -213,6 +214,20 @@ func (h *schedRun) handler(phase string) HandlerFunc {
 // onStart is called under the state lock and h.mu at the instant a handler starts.
 func (h *schedRun) onStart(idx int, phase string, t *Task) {
 	h.starts = append(h.starts, schedStart{idx, phase, h.curOp})
+	if h.resumeExempt[h.key(idx, phase)] {
+		// re-run of a handler that was running when the process stopped: the
+		// dependency check applied to its original start; statuses of other
+		// tasks may have legitimately moved since (e.g. a second abort re-marking
+		// a completed task without undo handler)
+		delete(h.resumeExempt, h.key(idx, phase))
+		if phase == "do" {
+			h.cnt.doStarts[idx]++
+		} else {
+			h.cnt.undoStart[idx]++
+		}
+		h.logf("    restart %s(%d)", phase, idx)
+		return
+	}
 	if phase == "do" {
 		h.cnt.doStarts[idx]++
 		for _, wt := range t.WaitTasks() {
